@@ -92,6 +92,15 @@ fn $refs(a: $M<R>, b: $M<R>, v: $V<R>) {
     let p = a * b; let w = a * v;
     vassert_eq("&A*B", &a * b, p); vassert_eq("A*&B", a * &b, p); vassert_eq("&A*&B", &a * &b, p);
     vassert_eq("&A*v", &a * v, w); vassert_eq("A*&v", a * &v, w); vassert_eq("&A*&v", &a * &v, w);
+    // the ring through its other spellings: in place, and folded by an iterator from the neutral elements
+    let mut t = a; t += b; vassert_eq("A += B", t, a + b);
+    let mut u = a; u -= b; vassert_eq("A -= B", u, a - b);
+    let e: [$M<R>; 0] = [];
+    vassert_eq("empty product of refs = identity", e.iter().product::<$M<R>>(), $M::<R>::identity());
+    vassert_eq("empty product of values = identity", e.into_iter().product::<$M<R>>(), $M::<R>::identity());
+    vassert_eq("empty sum = zero", e.iter().sum::<$M<R>>(), $M::<R>::zero());
+    vassert_eq("product of [A, B]", [a, b].iter().product::<$M<R>>(), $M::<R>::identity() * a * b);
+    vassert_eq("sum of [A, B]", [a, b].iter().sum::<$M<R>>(), $M::<R>::zero() + a + b);
     vcover("end");
 }
 }
